@@ -12,7 +12,10 @@ import (
 
 // FilterNames / AggNames are the registered names. Behaviour is (index mod 3).
 var FilterNames = []string{"f1", "f2", "f3", "f4", "f5", "f6"}
-var AggNames = []string{"g1", "g2", "g3", "g4", "g5", "g6"}
+
+// "gid" returns the very slice it was given (an aggregate a user could plausibly write); it
+// makes the ownership of the argument list observable (C05).
+var AggNames = []string{"g1", "g2", "g3", "g4", "g5", "g6", "gid"}
 
 func nameIndex(names []string, name string) int {
 	for i, n := range names {
@@ -78,6 +81,9 @@ func ApplyAggregate(name string, vs []interface{}) (interface{}, error) {
 	i := nameIndex(AggNames, name)
 	if i < 0 {
 		return nil, fmt.Errorf("harness bug: unknown aggregate function %s", name)
+	}
+	if name == "gid" {
+		return vs, nil
 	}
 	switch i % 3 {
 	case 0:
